@@ -12,6 +12,9 @@ CHECKS = {
  "C02": dict(tech="round-trip oracle over single-rooted containment trees x every permutation of the stored edge list (<=4/5 edges) x CycloneDX 1.4/1.5",
    text="Generated containment trees (random, deep, wide; grouped or split edges) with per-version component types, external-reference types and hash algorithms forced in turn are written in every permutation of their stored edge list when small (4 PRNG-chosen orders otherwise), read back and compared through a projection (node set, root, parent map, per-node CycloneDX attributes, serial number, version, lifecycles); second pass must be a fixed point.",
    note="Trusts the projection and the harness's own per-version tables; cyclonedx-go is part of the observed system. Known finding cdx-reader-first-licence-only is keyed by a computed signature.", ref="DESIGN.md §5 C02"),
+ "C03": dict(tech="independent-decoder oracle: writer output decoded with encoding/json only and compared with the document using the harness's own specification tables; read-back identity monitor",
+   text="Well-formed documents (generated graphs outside the round-trip classes; the repository's 12 real SPDX/CycloneDX SBOMs parsed by protobom, unmodified and under JSON-level mutations) are written in every registered format; each successful output is decoded without any protobom/SPDX/CycloneDX library type and checked for: every node present (exactly once when containment is a forest), every expressible relationship under its specification name, nothing invented, no dangling reference; then read back and identity attributes compared.",
+   note="Trusts encoding/json and the harness's transcription of the SPDX 2.3 relationship/checksum names and the CycloneDX hash names. Writer errors are acceptable outcomes; CycloneDX 1.0/1.1 outputs are not judged.", ref="DESIGN.md §5 C03"),
  "C08": dict(tech="invariant monitor (well-formed / normalised) after every step of exhaustive small-universe and random operation programs",
    text="Runtime invariant monitoring: every result of every editing operation is checked for well-formedness (and normalisation where the statement requires it), RemoveNodes against its exact set model. All 4301 well-formed lists on <=3 ids are enumerated as receivers (thorough: against all 4301 arguments), plus random operation histories whose results re-enter the pool. Decides the property for the executions produced; exhaustive only on the enumerated universe.",
    note="Trusts the harness's own WF/normalised predicates and protobuf reflection (proto.Clone). Operands are well-formed by construction and re-checked before each step.", ref="DESIGN.md §5 C08"),
